@@ -514,6 +514,11 @@ pub fn run(args: &Args) -> (Meta, Stats) {
                                     lo = mid + 1;
                                 }
                             }
+                            // the culprit is the last operation of the shrunk sequence
+                            let (d, ops) = match catch(|| direct_sequence(sseed, hi, &mut Stats::new())) {
+                                Ok(Some((_, d2, o2))) => (d2, o2),
+                                _ => (d, ops),
+                            };
                             let last = ops.last().cloned().unwrap_or_default();
                             let opkind = last.split(['(', ' ']).nth(1).unwrap_or("").to_string();
                             let same = if last.contains("[same parent]") { ":same-parent" } else { "" };
